@@ -54,6 +54,10 @@ func (h Header) ValidateBasic() error {
 	if h.GasUsed > h.GasLimit {
 		return fmt.Errorf("invalid gasUsed: have %d, gasLimit %d", h.GasUsed, h.GasLimit)
 	}
+	// Verify that the bloom filter fits: the conversion to an ethereum header panics otherwise
+	if len(h.Bloom) > types.BloomByteLength {
+		return fmt.Errorf("invalid bloom length: have %d, max %d", len(h.Bloom), types.BloomByteLength)
+	}
 	// Ensure that the block's difficulty is meaningful (may not be correct at this point)
 	number := h.Height.RevisionHeight
 	if number > 0 {
